@@ -717,6 +717,103 @@ func (g *c17Gen) addrRuns() {
 	}
 }
 
+// ---- results must not depend on EARLIER calls ----
+// Sequences of derivations in one process in which an earlier call's inputs collide with a later
+// call's when written as text without separators: (id, digits+denom) then (id*10^k+digits, denom),
+// the empty denom, ids 1/10/11/100/101, denoms that start with digits; the same shape for
+// BridgeAddress and the withdrawal hash.  Every result is compared with the independent derivation
+// (`C17:format-mismatch`); then through the real paths: a TokenPairByL1Denom query first, then a
+// deposit on the colliding bridge - the L2 denom in the recorded token pair and in the event must
+// be the independent derivation (`C17:result-depends-on-earlier-calls`).
+func (g *c17Gen) orderDependence(seed uint64) {
+	den := func(b uint64, d string) {
+		out := ophosttypes.L2Denom(b, d)
+		g.add("denom", fmt.Sprintf("FDenom %s %s", coqU(b), coqStr(d)), fmt.Sprintf("L2Denom(%d, %q)", b, d), []byte(out), []byte(indepDenom(b, d)))
+	}
+	type pr struct {
+		b uint64
+		d string
+	}
+	for _, seq := range [][]pr{
+		{{1, "0uc17m"}, {10, "uc17m"}, {1, "0uc17m"}},
+		{{1, "1"}, {11, ""}, {1, "1"}},
+		{{11, "vc17m"}, {1, "1vc17m"}},
+		{{10, "0wc17m"}, {100, "wc17m"}, {1, "00wc17m"}},
+		{{1, "01xc17m"}, {101, "xc17m"}, {10, "1xc17m"}},
+		{{0, "7"}, {7, ""}, {0, "07"}, {70, ""}},
+		{{1, "8446744073709551615"}, {18446744073709551615, ""}, {1844674407370955161, "5"}},
+		{{12, "3/yc17m"}, {123, "/yc17m"}, {1, "23/yc17m"}},
+		{{2, "uinit"}, {2, "uinit "}, {2, " uinit"}, {20, "uinit"}},
+	} {
+		for _, x := range seq {
+			den(x.b, x.d)
+		}
+	}
+	for _, id := range []uint64{1, 10, 11, 100, 101, 1, 110, 1001, 10, 1 << 32, 1<<32 + 1, 10 << 32, 11, 101, 100} {
+		out := ophosttypes.BridgeAddress(id)
+		g.add("addr", fmt.Sprintf("FAddr %s", coqU(id)), fmt.Sprintf("BridgeAddress(%d)", id), []byte(out), indepAddr(id))
+	}
+	type lf struct {
+		b, s    uint64
+		f, t, d string
+		a       uint64
+	}
+	for _, x := range []lf{
+		{1, 11, "a", "b", "c", 1}, {11, 1, "a", "b", "c", 1}, {1, 1, "1a", "b", "c", 1}, {111, 0, "a", "b", "c", 1},
+		{1, 2, "ab", "c", "d", 3}, {1, 2, "a", "bc", "d", 3}, {1, 2, "a", "b", "cd", 3}, {1, 2, "", "abc", "d", 3}, {1, 2, "abc", "", "d", 3},
+		{1, 2, "a", "b", "c3", 0}, {1, 2, "a", "b", "c", 30}, {12, 0, "a", "b", "c", 30}, {1, 20, "a", "b", "c", 30},
+	} {
+		out := ophosttypes.GenerateWithdrawalHash(x.b, x.s, x.f, x.t, x.d, x.a)
+		g.add("leaf", fmt.Sprintf("FLeaf %s %s %s %s %s %s", coqU(x.b), coqU(x.s), coqStr(x.f), coqStr(x.t), coqStr(x.d), coqU(x.a)),
+			fmt.Sprintf("GenerateWithdrawalHash(%d, %d, %q, %q, %q, %d)", x.b, x.s, x.f, x.t, x.d, x.a), out[:], indepLeaf(x.b, x.s, x.f, x.t, x.d, x.a))
+	}
+	// the real paths: query first, then a deposit on the colliding bridge
+	sc := NewL1Scenario(seed*53+9, 0, nil)
+	e, c := sc.Env, sc.Case
+	for b := 1; b <= 11; b++ {
+		if res := c.Do(sc.Create(e.User(1).Str, sc.NewConfig(1, 2, 7*sec))); !res.OK {
+			panic("C17 order part: create failed: " + res.Err)
+		}
+	}
+	for k, x := range []struct {
+		qb uint64
+		qd string
+		b  uint64
+		d  string
+	}{{1, "0qc17m", 10, "qc17m"}, {1, "1rc17m", 11, "rc17m"}, {10, "sc17m", 1, "sc17m"}} {
+		e.Fund(e.User(3).Addr, sdk.NewCoins(sdk.NewInt64Coin(x.d, 1000)))
+		q, err := e.Q.TokenPairByL1Denom(e.Ctx, &ophosttypes.QueryTokenPairByL1DenomRequest{BridgeId: x.qb, L1Denom: x.qd})
+		hist := []string{fmt.Sprintf("Query/TokenPairByL1Denom(bridge %d, %q)", x.qb, x.qd)}
+		if err == nil && q.TokenPair.L2Denom != indepDenom(x.qb, x.qd) {
+			g.rep.Violate(Violation{Case: k, Step: 2000 + k, What: "TokenPairByL1Denom returns an L2 denom that is not the documented derivation", Sig: "C17:result-depends-on-earlier-calls", Ops: hist,
+				Detail: map[string]string{"returned": q.TokenPair.L2Denom, "documented": indepDenom(x.qb, x.qd)}})
+		}
+		op := sc.op(L1Op{Kind: "deposit", Sender: e.User(3).Str, Bridge: x.b, To: "l2addr", Denom: x.d, Amt: big.NewInt(5)})
+		res := c.Do(op)
+		g.rep.Hist(fmt.Sprintf("order:deposit-after-query:%v", res.OK))
+		g.rep.Ops += 2
+		want := indepDenom(x.b, x.d)
+		evDenom := ""
+		for _, ev := range res.Events {
+			if ev.Type == ophosttypes.EventTypeInitiateTokenDeposit {
+				evDenom = attr(ev, ophosttypes.AttributeKeyL2Denom)
+			}
+		}
+		recorded := ""
+		if tp, err := e.Q.TokenPairs(e.Ctx, &ophosttypes.QueryTokenPairsRequest{BridgeId: x.b}); err == nil {
+			for _, p := range tp.TokenPairs {
+				if p.L1Denom == x.d {
+					recorded = p.L2Denom
+				}
+			}
+		}
+		if !res.OK || evDenom != want || recorded != want {
+			g.rep.Violate(Violation{Case: k, Step: 2100 + k, What: fmt.Sprintf("after the query %s, the deposit of %q on bridge %d (ok=%v) emits L2 denom %q and records %q; the documented derivation is %q: the result depends on earlier calls",
+				hist[0], x.d, x.b, res.OK, evDenom, recorded, want), Sig: "C17:result-depends-on-earlier-calls", Ops: append(append(l1OpsHuman(c.Ops[:len(c.Ops)-1]), "// "+hist[0]), l1OpsHuman(c.Ops[len(c.Ops)-1:])...)})
+		}
+	}
+}
+
 func (g *c17Gen) addr() {
 	b := g.u64()
 	out := ophosttypes.BridgeAddress(b)
@@ -930,6 +1027,7 @@ func genC17(seed uint64, tier string, outdir string) *Report {
 		mul = 24
 	}
 	g.pinned()
+	g.orderDependence(seed)
 	for i := 0; i < 110*mul; i++ {
 		g.leaf()
 	}
